@@ -427,6 +427,19 @@ export class TypeGen {
       const [check, ext] = r.chance(0.5) ? [A.ref(d.name), d.t] : [d.t, A.ref(d.name)];
       return { k: "cond", check, ext, a: this.type(depth - 1), b: this.type(depth - 1) };
     }
+    // flat objects that differ in how a property may be missing: `a: T`, `a: T | undefined`, `a?: T`,
+    // `a?: T | undefined`, `a: T | null`, or no `a` at all
+    if (r.chance(0.2)) {
+      const T = this.scalarLeaf();
+      const side = () => {
+        const k = r.below(6);
+        const extra = r.chance(0.3) ? [A.prop("b", A.kw("number"))] : [];
+        if (k === 5) return A.obj(extra);
+        const t = k === 1 || k === 3 ? A.union([T, A.kw("undefined")]) : k === 4 ? A.union([T, A.kw("null")]) : T;
+        return A.obj([A.prop("a", t, k === 2 || k === 3), ...extra]);
+      };
+      return { k: "cond", check: side(), ext: side(), a: A.lit("yes"), b: A.lit("no") };
+    }
     return { k: "cond", check: scalar(), ext: scalar(), a: this.type(depth - 1), b: this.type(depth - 1) };
   }
   excludeType() {
